@@ -15,3 +15,30 @@ Theorem C01_leaf_verdict :
     o_verdict (process_tree lower q top) = leaf_verdict lower top q /\ o_err (process_tree lower q top) = ErrNone.
 Proof. exact leaf_alone_verdict. Qed.
 Print Assumptions C01_leaf_verdict.
+
+(* ---------- grouping: how the parser reads chains ---------- *)
+From Rules Require Import Layout ParserProofs.
+
+(* every printed rule tree — any chain length, any nesting depth, any placement of not and
+   of the optional blanks — is read back as its tree *)
+Theorem C01_grouping : forall c, wf_chain c -> parse_tokens (print_chain c) = Some (erase_chain c).
+Proof. exact parse_print. Qed.
+Print Assumptions C01_grouping.
+
+(* a chain without parentheses associates to the left, `and` and `or` at the same precedence *)
+Theorem C01_left_assoc :
+  forall f l, wf_chain (LChain f l) ->
+    parse_tokens (print_chain (LChain f l)) =
+    Some (fold_left (fun acc op => QLogic (fst op) acc (erase_prim (snd op))) l (erase_prim f)).
+Proof. exact chain_left_assoc. Qed.
+Print Assumptions C01_left_assoc.
+
+(* `a or b and c` means `(a or b) and c`;  `not (a) and b` negates only a *)
+Example C01_example :
+  let a := QPresent [[97]%N] in let b := QPresent [[98]%N] in let c := QPresent [[99]%N] in
+  parse_tokens (print_chain (LChain (LLeaf a) [(true, LLeaf b); (false, LLeaf c)])) = Some (QLogic false (QLogic true a b) c) /\
+  parse_tokens (print_chain (LChain (LParen true false false false (LChain (LLeaf a) [])) [(false, LLeaf b)]))
+    = Some (QLogic false (QParen true a) b) /\
+  (* a or b and c  on {a}: (a or b) and c = false, whereas a or (b and c) would be true *)
+  o_verdict (run go_lower [97;32;112;114;32;111;114;32;98;32;112;114;32;97;110;100;32;99;32;112;114]%N [([97]%N, GInt 1)]) = false.
+Proof. repeat split; vm_compute; reflexivity. Qed.
